@@ -210,6 +210,15 @@ pub open spec fn skip_nl(b: Seq<u8>) -> Seq<u8>
         &&& ret.compiler == last_header(recs, n, "compiler"@) && ret.compiler_version == last_header(recs, n, "compiler_version"@) && ret.min_api == last_min_api(recs, n)
     }),""")
     u.emit(sm)
+    nw = mp.impl_fn(PM, "new")
+    nw.ret("ret")
+    nw.contracted = True
+    nw.props_all = ["C19", "C06"]
+    nw.props_safety = ["C13"]
+    import re as _re
+    mnw = _re.search(r"fn\s+new\s*\(\s*(\w+)\s*:", nw.orig)
+    nw.contract("    ensures /*@L:mapping_is_exactly_the_given_bytes:C19,C06*/ ret.source == %s," % (mnw.group(1) if mnw else "source"))
+    u.emit(nw)
     u.raw("}\n", "glue")
     u.raw(FOOTER, "footer")
     return u
